@@ -1,0 +1,19 @@
+//go:build verif
+
+package cloudwatch
+
+import (
+	"github.com/sirupsen/logrus"
+
+	"github.com/atlassian/gostatsd"
+)
+
+// VerifNewClient builds the backend around a caller supplied CloudWatch API implementation.
+func VerifNewClient(api CloudwatchClient, namespace string, disabled gostatsd.TimerSubtypes, logger logrus.FieldLogger) *Client {
+	return &Client{
+		logger:           logger,
+		cloudwatch:       api,
+		namespace:        namespace,
+		disabledSubtypes: disabled,
+	}
+}
